@@ -5,9 +5,12 @@
   `getNamespaceData` = `ExtendedDataSquare::get_namespace_data`) over the nmt-rs model (`verify_complete_namespace`
   with presence and absence proofs, completeness check, `compute_tree_size`, lumina's `validate_shape` wrapper).
   Spec: `Lumina/Spec/C06.lean` (brute-force scan of the square; model-free).
-  Soundness is proved at full strength under the idealised hash (`HashOK`) and in "sound or explicit collision" form.
-  Completeness (`FullCompleteness`) is proved in full (`nsdata_complete`), on top of the multi-leaf range-proof
-  completeness of `Proofs/NmtMulti*.lean`.
+  Soundness is proved at full strength under collision-freeness of the hash RELATIVE TO the byte strings actually hashed
+  (`HashOKOn H (· ∈ hashedC06 H e rows ns)`: the square's row/column trees and the `hash_leaf`/`hash_nodes` calls of the
+  verification of the given rows), and as a reduction: an accepted wrong answer yields an explicit collision among those
+  inputs.  Completeness (`FullCompleteness`) is proved in full (`nsdata_complete`), on top of the multi-leaf range-proof
+  completeness of `Proofs/NmtMulti*.lean`; its only hash assumption is collision-freeness on the square's own inputs
+  (`edsInputs`).
 -/
 import Lumina.Proofs.NsData
 import Lumina.Proofs.NmtMultiNsData
@@ -25,48 +28,52 @@ theorem consts_eq :
     Lumina.Gen.C06.HASH_SIZE = Lumina.Model.Nmt.HASH_LEN ∧ Lumina.Gen.C06.SHARE_SIZE = Lumina.Model.Eds.SHARE_SIZE := by
   decide
 
+/-- the byte strings hashed by the two computations the soundness theorems compare: all row and column trees of the
+    square (and the empty string, preimage of `EMPTY_ROOT`), and the `hash_leaf` / `hash_nodes` calls of
+    `verify_complete_namespace` over the given rows -/
+def hashedC06 (H : HashFn) (e : Eds) (rows : List RowNsData) (ns : Bytes) : List Bytes :=
+  edsInputs H e ++ nsDataInputs H rows ns
+
 /-- **Soundness of `NamespaceData::verify`** — every square (any width), its DAH, every 29-byte namespace, every list of
     rows with any proofs (presence or absence, any range, any siblings, any flags): accepted ⇒ the rows are, in row
     order, exactly the rows whose root range covers the namespace, each holding exactly the namespace's shares of that
-    row (no shares where the row has none).  Hypotheses: idealised hash; quadrant parity flags and share sizes
-    (`SquareShape`, established by `ExtendedDataSquare::new`); sizes guaranteed by the Rust types (`ProofOK`). -/
-theorem nsdata_sound {H : HashFn} (hk : HashOK H) {e : Eds} (hsq : SquareShape e) {dah : Dah}
+    row (no shares where the row has none).  Hypotheses: the hash has 32-byte output and no collision among
+    `hashedC06 H e rows ns` (a finite, explicitly computed list — satisfiable, see the non-vacuity instance below);
+    quadrant parity flags and share sizes (`SquareShape`, established by `ExtendedDataSquare::new`); sizes guaranteed
+    by the Rust types (`ProofOK`). -/
+theorem nsdata_sound {H : HashFn} {e : Eds} (hsq : SquareShape e) {dah : Dah}
     (hd : Dah.ofEds H e = .ok dah) {ns : Bytes} (hns : ns.length = NS_SIZE)
-    (rows : List RowNsData) (hp : ∀ d ∈ rows, ProofOK d.proof) :
+    (rows : List RowNsData) (hp : ∀ d ∈ rows, ProofOK d.proof)
+    (hk : HashOKOn H (fun y => y ∈ hashedC06 H e rows ns)) :
     specVerify e.width (rawSquare e) ns (rows.map (fun d => d.shares.map Share.data))
       (accepted (verify H rows ns dah)) = true := by
   cases hv : verify H rows ns dah with
   | error er => simp [accepted, specVerify]
   | ok u =>
-    have := verify_sound_model hk hd hsq.size hns hp hv
-    simp [accepted, specVerify, this, expected_eq hk hsq hd hns]
+    have hS : ∀ y ∈ edsInputs H e, y ∈ hashedC06 H e rows ns := fun y hy => List.mem_append_left _ hy
+    have hV : ∀ y ∈ nsDataInputs H rows ns, y ∈ hashedC06 H e rows ns := fun y hy => List.mem_append_right _ hy
+    have := verify_sound_model_on hk hd hsq.size hns hS hV hp hv
+    simp [accepted, specVerify, this, expected_eq_on hk hsq hd hS hns]
 
-/-- soundness in reduction form (satisfiable by real hashes): sound, or the hash has an explicit collision -/
-theorem nsdata_sound_or_collision {H : HashFn} (hl : HashLen H) {e : Eds} (hsq : SquareShape e) {dah : Dah}
+/-- **Soundness as a reduction** (no assumption on the hash beyond its output length): an accepted answer that is not the
+    namespace's data yields an explicit collision `x ≠ y`, `H x = H y` with `x`, `y` among the byte strings hashed for
+    the square's trees and by the verification. -/
+theorem nsdata_forgery_yields_collision {H : HashFn} (hl : HashLen H) {e : Eds} (hsq : SquareShape e) {dah : Dah}
     (hd : Dah.ofEds H e = .ok dah) {ns : Bytes} (hns : ns.length = NS_SIZE)
-    (rows : List RowNsData) (hp : ∀ d ∈ rows, ProofOK d.proof) :
-    specVerify e.width (rawSquare e) ns (rows.map (fun d => d.shares.map Share.data))
-      (accepted (verify H rows ns dah)) = true ∨ ∃ x y, x ≠ y ∧ H x = H y := by
-  by_cases hinj : Function.Injective H
-  · exact Or.inl (nsdata_sound ⟨hinj, hl⟩ hsq hd hns rows hp)
-  · right
-    unfold Function.Injective at hinj
-    have : ∃ x y, H x = H y ∧ x ≠ y := by
-      apply Classical.byContradiction
-      intro hn
-      apply hinj
-      intro a b hab
-      apply Classical.byContradiction
-      intro hne
-      exact hn ⟨a, b, hab, hne⟩
-    obtain ⟨x, y, h1, h2⟩ := this
-    exact ⟨x, y, h2, h1⟩
+    (rows : List RowNsData) (hp : ∀ d ∈ rows, ProofOK d.proof)
+    (hbad : specVerify e.width (rawSquare e) ns (rows.map (fun d => d.shares.map Share.data))
+      (accepted (verify H rows ns dah)) = false) :
+    CollisionIn H (fun y => y ∈ hashedC06 H e rows ns) := by
+  rcases noCollOn_or_collision H (fun y => y ∈ hashedC06 H e rows ns) with h | h
+  · have := nsdata_sound hsq hd hns rows hp ⟨h, hl⟩
+    rw [this] at hbad; cases hbad
+  · exact h
 
 /-- **Soundness of a single `RowNamespaceData::verify`**: accepted ⇒ the row exists and, if its root range covers the
     namespace, the shares are exactly the namespace's shares of that row; otherwise no shares are accepted. -/
-theorem row_nsdata_sound {H : HashFn} (hk : HashOK H) {e : Eds} (hsq : SquareShape e) {dah : Dah}
+theorem row_nsdata_sound {H : HashFn} {e : Eds} (hsq : SquareShape e) {dah : Dah}
     (hd : Dah.ofEds H e = .ok dah) {ns : Bytes} (hns : ns.length = NS_SIZE) (d : RowNsData) (hp : ProofOK d.proof)
-    (row : Nat) :
+    (row : Nat) (hk : HashOKOn H (fun y => y ∈ hashedC06 H e [d] ns)) :
     specRow e.width (rawSquare e) ns row (d.shares.map Share.data) (accepted (rowVerify H d ns row dah)) = true := by
   cases hv : rowVerify H d ns row dah with
   | error er => simp [accepted, specRow]
@@ -82,12 +89,15 @@ theorem row_nsdata_sound {H : HashFn} (hk : HashOK H) {e : Eds} (hsq : SquareSha
         | some r =>
           unfold Dah.rowRoot? at hg
           have := (List.getElem?_eq_some_iff.mp hg).1; omega
+    have hS : ∀ y ∈ edsInputs H e, y ∈ hashedC06 H e [d] ns := fun y hy => List.mem_append_left _ hy
+    have hV : ∀ y ∈ vcnInputs H d.proof (d.shares.map Share.data) ns, y ∈ hashedC06 H e [d] ns := fun y hy =>
+      List.mem_append_right _ (by unfold nsDataInputs; rw [List.flatMap_cons]; exact List.mem_append_left _ hy)
     obtain ⟨shares, root, hax, hroot?, _⟩ := row_facts hd hsq.size hrow
-    have hcov := rowCovers_eq hk hsq hd hrow hns
+    have hcov := rowCovers_eq_on hk hsq hd hS hrow hns
     have hrc : dah.rowContains? H row ns = some (root.contains H ns) := by
       unfold Dah.rowContains?; rw [hroot?]; rfl
     by_cases hc : root.contains H ns = true
-    · obtain ⟨shares', hax', hdat⟩ := rowVerify_sound hk hd hsq.size hns hp (by rw [hrc, hc]) hv
+    · obtain ⟨shares', hax', hdat⟩ := rowVerify_sound_on hk hd hsq.size hS hV hns hp (by rw [hrc, hc]) hv
       rw [hax] at hax'
       injection hax' with hax'
       subst hax'
@@ -127,14 +137,27 @@ theorem row_nsdata_sound {H : HashFn} (hk : HashOK H) {e : Eds} (hsq : SquareSha
                 simp [hne', hab', hc'] at hvc
       simp [accepted, specRow, hrow, hcov', hempty]
 
+/-- the single-row soundness as a reduction: an accepted wrong row answer yields an explicit collision among the inputs
+    hashed for the square and by this verification -/
+theorem row_nsdata_forgery_yields_collision {H : HashFn} (hl : HashLen H) {e : Eds} (hsq : SquareShape e) {dah : Dah}
+    (hd : Dah.ofEds H e = .ok dah) {ns : Bytes} (hns : ns.length = NS_SIZE) (d : RowNsData) (hp : ProofOK d.proof)
+    (row : Nat)
+    (hbad : specRow e.width (rawSquare e) ns row (d.shares.map Share.data) (accepted (rowVerify H d ns row dah)) = false) :
+    CollisionIn H (fun y => y ∈ hashedC06 H e [d] ns) := by
+  rcases noCollOn_or_collision H (fun y => y ∈ hashedC06 H e [d] ns) with h | h
+  · have := row_nsdata_sound hsq hd hns d hp row ⟨h, hl⟩
+    rw [this] at hbad; cases hbad
+  · exact h
+
 /-- The full completeness statement of the property: on every valid square of width at most 65535 (`square_width` is a
     `u16`; `NamespaceData::verify` itself refuses more row roots) `get_namespace_data` never fails, returns exactly the
-    brute-force scan of the square, and `NamespaceData::verify` accepts it.  The idealised-hash hypothesis is needed only
-    for "returns exactly the scan" (a row root that collides with `EMPTY_ROOT` is reported as not containing anything
-    by `NamespacedHash::contains`); producing the data and accepting it need no hypothesis on the hash
+    brute-force scan of the square, and `NamespaceData::verify` accepts it.  The hash hypothesis (no collision among the
+    inputs hashed for the square's own trees and the empty string, `edsInputs`) is needed only for "returns exactly the
+    scan" (a row root that collides with `EMPTY_ROOT` is reported as not containing anything by
+    `NamespacedHash::contains`); producing the data and accepting it need no hypothesis on the hash
     (`nsdata_get_verifies`).  Proved: `nsdata_complete`. -/
 def FullCompleteness : Prop :=
-  ∀ (H : HashFn) (e : Eds) (dah : Dah) (ns : Bytes), HashOK H → SquareShape e → e.width ≤ 65535 →
+  ∀ (H : HashFn) (e : Eds) (dah : Dah) (ns : Bytes), HashOKOn H (fun y => y ∈ edsInputs H e) → SquareShape e → e.width ≤ 65535 →
     Dah.ofEds H e = .ok dah → ns.length = NS_SIZE →
     ∃ rows, getNamespaceData H e ns dah = .ok rows ∧
       specHonest e.width (rawSquare e) ns (rows.map (fun p => (p.1, p.2.shares.map Share.data)))
@@ -143,33 +166,24 @@ def FullCompleteness : Prop :=
 /-- **Completeness, first part** (kept from the earlier partial result; used by `nsdata_complete`): whatever
     `get_namespace_data` returns equals the brute-force scan of the square (the rows whose root range covers the
     namespace, in order, with exactly the namespace's shares). -/
-theorem nsdata_complete_partial {H : HashFn} (hk : HashOK H) {e : Eds} (hsq : SquareShape e) {dah : Dah}
+theorem nsdata_complete_partial {H : HashFn} {e : Eds} (hk : HashOKOn H (fun y => y ∈ edsInputs H e))
+    (hsq : SquareShape e) {dah : Dah}
     (hd : Dah.ofEds H e = .ok dah) {ns : Bytes} (hns : ns.length = NS_SIZE)
     {rows : List (Nat × RowNsData)} (hget : getNamespaceData H e ns dah = .ok rows) :
     rows.map (fun p => (p.1, p.2.shares.map Share.data)) = expected e.width (rawSquare e) ns := by
   unfold getNamespaceData at hget
-  rw [getNamespaceDataAux_data _ rows hget, expected_eq' hk hsq hd hns]
+  rw [getNamespaceDataAux_data _ rows hget, expected_eq'_on hk hsq hd (fun _ h => h) hns]
 
-/-- the proved completeness part in reduction form (satisfiable by real hashes) -/
+/-- the proved completeness part as a reduction: the answer is the scan, or there is an explicit collision among the
+    inputs hashed for the square's own trees (and the empty string) -/
 theorem nsdata_complete_partial_or_collision {H : HashFn} (hl : HashLen H) {e : Eds} (hsq : SquareShape e) {dah : Dah}
     (hd : Dah.ofEds H e = .ok dah) {ns : Bytes} (hns : ns.length = NS_SIZE)
     {rows : List (Nat × RowNsData)} (hget : getNamespaceData H e ns dah = .ok rows) :
     rows.map (fun p => (p.1, p.2.shares.map Share.data)) = expected e.width (rawSquare e) ns ∨
-      ∃ x y, x ≠ y ∧ H x = H y := by
-  by_cases hinj : Function.Injective H
-  · exact Or.inl (nsdata_complete_partial ⟨hinj, hl⟩ hsq hd hns hget)
-  · right
-    unfold Function.Injective at hinj
-    have : ∃ x y, H x = H y ∧ x ≠ y := by
-      apply Classical.byContradiction
-      intro hn
-      apply hinj
-      intro a b hab
-      apply Classical.byContradiction
-      intro hne
-      exact hn ⟨a, b, hab, hne⟩
-    obtain ⟨x, y, h1, h2⟩ := this
-    exact ⟨x, y, h2, h1⟩
+      CollisionIn H (fun y => y ∈ edsInputs H e) := by
+  rcases noCollOn_or_collision H (fun y => y ∈ edsInputs H e) with h | h
+  · exact Or.inl (nsdata_complete_partial ⟨h, hl⟩ hsq hd hns hget)
+  · exact Or.inr h
 
 /-- **Completeness, second part — no hypothesis on the hash**: on a square whose DAH exists (every axis namespace-ordered),
     with shares of at least 29 bytes and width ≤ 65535, `get_namespace_data` never fails and `NamespaceData::verify`
@@ -191,12 +205,12 @@ theorem nsdata_complete : FullCompleteness := by
   have hdat := nsdata_complete_partial hk hsq hd hns hget
   simp [specHonest, hacc, hdat]
 
-/-- full completeness in reduction form (satisfiable by real hashes): complete, or the hash has an explicit collision -/
+/-- full completeness as a reduction: complete, or an explicit collision among the inputs hashed for the square's trees -/
 theorem nsdata_complete_or_collision {H : HashFn} (hl : HashLen H) {e : Eds} (hsq : SquareShape e) (hw : e.width ≤ 65535)
     {dah : Dah} (hd : Dah.ofEds H e = .ok dah) {ns : Bytes} (hns : ns.length = NS_SIZE) :
     (∃ rows, getNamespaceData H e ns dah = .ok rows ∧
       specHonest e.width (rawSquare e) ns (rows.map (fun p => (p.1, p.2.shares.map Share.data)))
-        (accepted (verify H (rows.map Prod.snd) ns dah)) = true) ∨ ∃ x y, x ≠ y ∧ H x = H y := by
+        (accepted (verify H (rows.map Prod.snd) ns dah)) = true) ∨ CollisionIn H (fun y => y ∈ edsInputs H e) := by
   obtain ⟨rows, hget, hacc⟩ := nsdata_get_verifies hsq hw hd hns
   rcases nsdata_complete_partial_or_collision hl hsq hd hns hget with hdat | hcol
   · exact Or.inl ⟨rows, hget, by simp [specHonest, hacc, hdat]⟩
@@ -212,7 +226,7 @@ def okRows : List (Nat × RowNsData) :=
   | .ok r => r
   | .error _ => []
 
-/-- the hypotheses other than `HashOK` hold of a concrete square (`SquareShape`, width 2 ≤ 65535, DAH exists, 29-byte
+/-- the hypotheses other than the one on the hash hold of a concrete square (`SquareShape`, width 2 ≤ 65535, DAH exists, 29-byte
     namespace), and its own namespace data is produced and accepted -/
 theorem nonvacuity_okEds_shape : SquareShape okEds :=
   ⟨nonvacuity_okEds_valid.flags, fun sh hm => by rw [nonvacuity_okEds_valid.size sh hm]; decide⟩
@@ -234,5 +248,43 @@ example : HashLen toyH32 ∧ okEds.width ≤ 65535 ∧ Dah.ofEds toyH32 okEds = 
   intro l hl
   rw [hl] at h2
   simpa using h2
+
+/-! ### Non-vacuity of `nsdata_sound` / `row_nsdata_sound`: ALL hypotheses hold on a concrete accepted answer -/
+
+open Lumina.Proofs.Sample (toySum toySum_len noCollOn_of_list)
+
+def sumDah : Dah := match Dah.ofEds toySum okEds with | .ok d => d | .error _ => default
+/-- what `get_namespace_data` returns for namespace 0 of the concrete square under the toy hash (one row, one share) -/
+def sumRows : List RowNsData :=
+  match getNamespaceData toySum okEds ns0 sumDah with
+  | .ok r => r.map Prod.snd
+  | .error _ => []
+theorem proofOK_of_dec {rows : List RowNsData} (h : rows.all (fun d =>
+      d.proof.siblings.all (fun x => decide x.WF) &&
+      (match d.proof.leaf with | some l => decide l.WF | none => true) &&
+      decide (d.proof.start ≤ U32_MAX) && decide (d.proof.end_ ≤ U32_MAX)) = true) :
+    ∀ d ∈ rows, ProofOK d.proof := by
+  intro d hd
+  have := List.all_eq_true.mp h d hd
+  simp only [Bool.and_eq_true, List.all_eq_true, decide_eq_true_eq] at this
+  obtain ⟨⟨⟨h1, h2⟩, h3⟩, h4⟩ := this
+  refine ⟨h1, ?_, h3, h4⟩
+  intro l hl
+  rw [hl] at h2
+  simpa using h2
+
+set_option maxRecDepth 100000 in
+/-- the toy hash has no collision among the byte strings hashed for this square and this answer -/
+theorem nonvacuity_toySum_nocoll : NoCollOn toySum (fun y => y ∈ hashedC06 toySum okEds sumRows ns0) :=
+  noCollOn_of_list (by decide)
+
+set_option maxRecDepth 100000 in
+/-- `nsdata_sound` applied to a concrete ACCEPTED presence answer: every hypothesis (incl. relative collision-freeness)
+    holds -/
+example : sumRows.length = 1 ∧ accepted (verify toySum sumRows ns0 sumDah) = true ∧
+    specVerify okEds.width (rawSquare okEds) ns0 (sumRows.map (fun d => d.shares.map Share.data))
+      (accepted (verify toySum sumRows ns0 sumDah)) = true :=
+  ⟨by decide, by decide, nsdata_sound nonvacuity_okEds_shape (dah := sumDah) rfl rfl sumRows
+    (proofOK_of_dec (by decide)) ⟨nonvacuity_toySum_nocoll, toySum_len⟩⟩
 
 end Lumina.Props.C06
